@@ -580,6 +580,76 @@ class SecondAnonymizer(Part):
         return res
 
 
+class Contexts(Part):
+    name = "image_independent_of_the_surrounding_characters"
+    desc = "neighbouring addresses of both families written between every pair of delimiters of a menu (ASCII punctuation, blanks, non-ASCII letters / digits / punctuation): one image per address whatever stands next to it, and the applied mapping stays prefix-preserving"
+
+    LEFT = ["", " ", "(", "[", "=", ",", "\"", "\t", "上联到", "côté", "№", "٣", "。", "→", " ", "ß", "Ω", "x=", "#"]
+    RIGHT = ["", " ", ")", "]", ",", ";", "\"", "/24", "号", "é", "٣", "。", " ", "ü x", "%", "#"]
+
+    def __init__(self, tier, seed):
+        self.tier, self.seed = tier, seed
+
+    def cases(self):
+        return [{"fam": f, "B": B} for f in ("4", "6") for B in (0, 8)]
+
+    def run(self, case):
+        import io
+
+        from mc import seams
+        from netconan.anonymize_files import FileAnonymizer
+
+        res = Res()
+        if case["fam"] == "4":
+            addrs = [int(ipaddress.IPv4Address(x)) for x in ("10.20.30.40", "10.20.30.42", "10.20.31.1", "11.22.33.44", "200.7.6.5")]
+            text_of, L = refs.v4_text, 32
+            parse = lambda t: refs.v4_token_value(t)
+        else:
+            addrs = [int(ipaddress.IPv6Address(x)) for x in ("2001:db8:1:2::10", "2001:db8:1:2::11", "2001:db8::1", "fe80::a:b")]
+            text_of, L = refs.v6_text, 128
+            parse = lambda t: refs.v6_value(t)
+        lines, meta = [], []
+        for a in addrs:
+            for l in self.LEFT:
+                for r in self.RIGHT:
+                    if case["fam"] == "6" and r == "%":
+                        continue            # a zone index follows '%'
+                    lines.append("desc %s%s%s end" % (l, text_of(a), r))
+                    meta.append((a, l, r))
+        with seams.capture_logs():
+            fa = FileAnonymizer(anon_pwd=False, anon_ip=True, salt="saltForTest", preserve_suffix_v4=case["B"], preserve_suffix_v6=case["B"])
+            out = io.StringIO()
+            fa.anonymize_io(io.StringIO("".join(x + "\n" for x in lines)), out)
+        got = out.getvalue().split("\n")[:-1]
+        if len(got) != len(lines):
+            res.violation("line-count|contexts", "%d vs %d" % (len(got), len(lines)), case)
+            return res
+        image = {}
+        for (a, l, r), ln, g in zip(meta, lines, got):
+            res.evals += 1
+            pre = "desc " + l
+            body = g[len(pre):] if g.startswith(pre) else None
+            tok = body[: len(body) - len(r + " end")] if body is not None and body.endswith(r + " end") else None
+            v = parse(tok) if tok else None
+            res.nt((case["fam"], l, r))
+            if v is None:
+                res.violation("address-not-replaced-by-an-address|v%s" % case["fam"],
+                              "between %r and %r: %r -> %r" % (l, r, ln, g), case)
+                return res
+            if a in image and image[a][0] != v:
+                res.violation("image-depends-on-the-surrounding-characters|v%s" % case["fam"],
+                              "%s maps to %s between %r and %r but to %s between %r and %r" % (
+                                  text_of(a), text_of(image[a][0]), image[a][1], image[a][2], text_of(v), l, r), case)
+                return res
+            image.setdefault(a, (v, l, r))
+        bad = check_map([(a, image[a][0]) for a in sorted(image)], L)
+        if bad:
+            res.violation("cpl-not-preserved-by-applied-mapping|contexts|v%s" % case["fam"], bad[1], case)
+        res.out(tuple(sorted(v[0] for v in image.values())))
+        res.samples.append({"case": case, "lines": len(lines)})
+        return res
+
+
 def parts(tier, seed):
     return [SmallWidth(tier, seed), FullWidth(tier, seed), LazyReal(tier, seed), StatesPart(tier, seed),
-            LongHistory(tier, seed), FilePipeline(tier, seed), CliNetworks(tier, seed), SecondAnonymizer(tier, seed)]
+            LongHistory(tier, seed), FilePipeline(tier, seed), CliNetworks(tier, seed), SecondAnonymizer(tier, seed), Contexts(tier, seed)]
